@@ -302,6 +302,11 @@ type result struct {
 	doneUS  int64
 	jumpUS  int64
 	started bool
+	// the offset advertised by the live MPD fetched at the very instant of this request
+	ato     int64 // ms; -2: not a whole number of ms
+	atoStr  string
+	atoFrom string // "instant" | "scenario" (the MPD was not served at the instant: scenario-level value)
+	mpdSt   int
 }
 
 type driver struct {
@@ -382,6 +387,9 @@ func Main(args []string) error {
 			}
 		}
 	}
+	for _, j := range jobs {
+		d.advertisedAt(scens[j.sc], j)
+	}
 	run := func(list []*result) {
 		var wg sync.WaitGroup
 		for _, j := range list {
@@ -411,7 +419,7 @@ func Main(args []string) error {
 		var again []*result
 		for _, j := range cur {
 			if j.st == 200 && firstFlushUS(j) > 150_000 {
-				again = append(again, &result{sc: j.sc, n: j.n, in: j.in, try: round})
+				again = append(again, &result{sc: j.sc, n: j.n, in: j.in, try: round, ato: j.ato, atoStr: j.atoStr, atoFrom: j.atoFrom, mpdSt: j.mpdSt})
 			} else {
 				last[j] = true
 			}
@@ -513,15 +521,36 @@ func (d *driver) prepare(s *scen) {
 	}
 }
 
+// advMS turns the advertised attribute into ms: nothing advertised = 0 (segments become available at their
+// end); -2 = not a whole number of ms (reported by the trace spec as unusable input).
+func advMS(found bool, str string) int64 {
+	if !found || str == "" {
+		return 0
+	}
+	v, ok := decimalToMS(str)
+	if !ok {
+		return -2
+	}
+	return v
+}
+
+// advertisedAt reads the availabilityTimeOffset of the requested representation from the live MPD fetched at
+// the instant of the request j (same configuration, same nowMS).
+func (d *driver) advertisedAt(s *scen, j *result) {
+	now := s.cfg.AST*1000 + j.in.rel
+	r := d.env.S.Get(s.cfg.Prefix(s.a.Name) + "/" + s.a.MPD + "?nowMS=" + fmt.Sprint(now))
+	j.mpdSt = r.Status
+	if r.Status == 200 {
+		str, _, found := advertised(r.Body, s.rt.ID)
+		j.ato, j.atoStr, j.atoFrom = advMS(found, str), str, "instant"
+		return
+	}
+	j.ato, j.atoStr, j.atoFrom = advMS(s.advFound, s.atoAdv), s.atoAdv, "scenario"
+}
+
 func (d *driver) emitHeader(w *tr.W, si int, s *scen) {
 	loopMS := s.ref.L * 1000 / s.ref.TS
-	adv, advOK := decimalToMS(s.atoAdv)
-	if !s.advFound || s.atoAdv == "" {
-		adv, advOK = 0, true // nothing advertised: segments become available at their end
-	}
-	if !advOK {
-		adv = -2 // advertised value is not a whole number of ms: the trace spec reports it
-	}
+	adv := advMS(s.advFound, s.atoAdv)
 	slack := 1
 	if s.rt.Kind == "audio" {
 		slack = 2
@@ -572,7 +601,8 @@ func (d *driver) emitChunked(w *tr.W, s *scen, j *result, last bool) (int, int) 
 	np := project.Pair(j.in.rel, loopMS)
 	e := tr.E{"ev": "chunked", "key": wkey(s, j.n), "k": j.n / N, "i": j.n % N, "at": j.in.at, "now": np[:], "rel": fmt.Sprint(j.in.rel), "st": j.st,
 		"url": j.url, "try": j.try, "last": last, "jump": j.jumpUS > 1000 || j.jumpUS < -1000, "doneUS": j.doneUS, "blen": len(j.body),
-		"calls": []call{}, "chunks": []chunkObs{}, "samples": [][]any{}, "tfdt": []int64{0, 0}, "extra": []string{}, "err": ""}
+		"calls": []call{}, "chunks": []chunkObs{}, "samples": [][]any{}, "tfdt": []int64{0, 0}, "extra": []string{}, "err": "",
+		"ato": j.ato, "atoStr": j.atoStr, "atoFrom": j.atoFrom, "mpdSt": j.mpdSt}
 	nc := 0
 	if j.st == 200 {
 		bo := parseBody(j.body, s.trex, s.dec)
